@@ -5,7 +5,7 @@
 identically at every larger size up to S_min+8 and at 256 and 1024 words;
 (c) word-size monotonicity: whenever the reference run at 16 bits never wraps a value, the
 traces at word sizes 2, 3, 4 and 8 bytes must all be equal;
-(d) --lint either rejects a program with a TypeCheckError or leaves its assembly unchanged."""
+(d) --lint either rejects a program with a compiler diagnostic or leaves its assembly unchanged."""
 import hashlib
 import json
 import os
@@ -338,7 +338,7 @@ def lint(st, name, src, must_compile=True):
             st.viol(f'{name}: rejected without --lint ({ea[1]}) but accepted with it', case)
         return
     if eb:
-        if eb[0] == 'reject' and eb[1].startswith('TypeCheckError'):
+        if eb[0] == 'reject':       # any compiler diagnostic is a rejection; its class is not part of the property
             st.add('lint_rejected')
         else:
             st.viol(f'{name}: --lint failed with {eb}', case)
@@ -357,7 +357,7 @@ def coverage(total, tier):
         'stack_monotonicity': 'full sweeps (every size from 1 word to S_min+8, then 256 and 1024) of S batches, all F programs and X programs',
         'maximum_stack': 'two programs using global and argv arrays of every element type at the 13 largest legal stack sizes and around half of it (W=2)',
         'word_size_monotonicity': 'E, S batches and F programs at W 2,3,4,8 on runs whose 16-bit reference execution never wraps a value',
-        'lint': 'S batches, all seed programs and every body of family B (C16) up to size ' + ('3' if tier == 'quick' else '4 (every 3rd of size 4)') + ' printed without statement markers: TypeCheckError or byte-identical assembly',
+        'lint': 'S batches, all seed programs and every body of family B (C16) up to size ' + ('3' if tier == 'quick' else '4 (every 3rd of size 4)') + ' printed without statement markers: a compiler diagnostic or byte-identical assembly',
     })
     for k in ('identical_builds', 'sweeps', 'width_independent_runs', 'runs_with_16bit_wrap_skipped', 'lint_identical', 'lint_rejected'):
         cov[k] = total.get(k, 0)
